@@ -28,27 +28,39 @@ if os.path.isdir(wt) and '--skip-confirm' not in sys.argv:
     rc, out = sh(PYTEST, wt); report['pytest_patched'] = out.strip().splitlines()[-1]
     sh('git checkout -- .', wt)
     print('confirm: demo clean rc=%s patched rc=%s; pytest: %s' % (report['demo_clean'], report['demo_patched'], report['pytest_patched']))
+SCRATCH = '--scratch' in sys.argv   # a scratch worktree of /repo HEAD instead of /repo itself (checks get VERIF_REPO)
+TARGET = '/repo'
+ENV = dict(os.environ)
+if SCRATCH:
+    TARGET = '/tmp/seedrun-%s%s%s' % (prop, which, rnd)
+    sh('git -C /repo worktree remove --force ' + TARGET)
+    rc, out = sh('git -C /repo worktree add --detach %s HEAD' % TARGET); assert rc == 0, out
+    ENV['VERIF_REPO'] = TARGET
+    ENV['VERIF_WORK'] = TARGET + '-work'
 alt = os.path.join('/verif/seeded', '%s-%s%s' % (prop, which, rnd), 'patch.diff')
-rc, out = sh('git -C /repo apply ' + patch)
+rc, out = sh('git -C %s apply ' % TARGET + patch)
 if rc != 0 and os.path.exists(alt):
     patch_used = alt        # a copy ported by hand to the current tree
-    rc, out = sh('git -C /repo apply ' + alt)
+    rc, out = sh('git -C %s apply ' % TARGET + alt)
 if rc != 0:
-    sh('git -C /repo reset -q && git -C /repo checkout -- .')
+    sh('git -C /repo worktree remove --force ' + TARGET) if SCRATCH else sh('git -C /repo reset -q && git -C /repo checkout -- .')
     sys.exit('patch does not apply to /repo (port it by hand into %s): %s' % (alt, out))
 results = {}
 try:
     for check in checks.split(','):
-        p = subprocess.run(['/verif/check', check, '--tier', tier], capture_output=True, text=True, cwd='/verif')
+        p = subprocess.run(['/verif/check', check, '--tier', tier], capture_output=True, text=True, cwd='/verif', env=ENV)
         lines = [l for l in p.stdout.splitlines() if l.startswith(('VIOLATION', 'violation'))]
         results[check] = {0: 'MISSED', 1: 'CAUGHT'}.get(p.returncode, 'ERROR')
         print('{} [{}] exit={} {}'.format(check, tier, p.returncode, results[check]))
         for l in lines[:3]: print('   ', l[:260])
         if p.returncode == 2: print(p.stderr[-1200:])
 finally:
-    sh('git -C /repo reset -q && git -C /repo checkout -- .')
-    print(sh('git -C /repo status --short --untracked-files=no')[1].strip() or 'repo clean')
-    sh('rm -rf /verif/replays/*/[!f]*-????????.json')
+    if SCRATCH:
+        sh('git -C /repo worktree remove --force ' + TARGET); sh('rm -rf ' + TARGET + '-work')
+    else:
+        sh('git -C /repo reset -q && git -C /repo checkout -- .')
+        print(sh('git -C /repo status --short --untracked-files=no')[1].strip() or 'repo clean')
+    sh('rm -rf /verif/replays/*/[!fo]*-????????.json')
 if '--keep' in sys.argv:
     dst = '/verif/seeded/%s-%s%s' % (prop, which, rnd); os.makedirs(dst, exist_ok=True)
     if not os.path.exists(os.path.join(dst, 'patch.diff')) or open(os.path.join(dst, 'patch.diff')).read() == open(patch).read() or True:
